@@ -284,6 +284,14 @@ fn exec(cache: AnyCache, steps: &[Step], out: &mut String) -> Result<(), BoxedEr
                         Err(_) => write!(out, " F:{x}=!").unwrap(),
                     }
                 }
+                "Q" => {
+                    use assets_manager::source::Source;
+                    let mut n = 0;
+                    match cache.raw_source().read_dir(x, &mut |_| n += 1) {
+                        Ok(()) => write!(out, " Q:{x}={n}").unwrap(),
+                        Err(_) => write!(out, " Q:{x}=!").unwrap(),
+                    }
+                }
                 "X" => {
                     let h = cache.load::<P>(x)?;
                     write!(out, " X:{x}={}", h.read().v).unwrap();
@@ -692,6 +700,18 @@ impl Eval {
                         match self.read(v, other, x, "r") {
                             Ok(c) => write!(out, " F:{x}={c}").unwrap(),
                             Err(_) => write!(out, " F:{x}=!").unwrap(),
+                        }
+                    }
+                    "Q" => {
+                        if rec && !other && v.hot {
+                            deps.insert(Dep::Dir(x.clone()));
+                        }
+                        let src = if other { v.other_src } else { v.src };
+                        let ok = self.access(v, other, &format!("D:{x}")).is_ok() && src_is_dir(src, v.dirs, x);
+                        if ok {
+                            write!(out, " Q:{x}={}", src_list(src, v.dirs, x).len()).unwrap();
+                        } else {
+                            write!(out, " Q:{x}=!").unwrap();
                         }
                     }
                     "X" => {
